@@ -39,7 +39,8 @@ Base == [camel |-> FALSE, query |-> "Query", mutation |-> "", subscription |-> "
                      Fld(<<"level">>, Named("Level"), <<>>, "level", "r_level", ""),
                      Fld(<<"meta">>, Named("_Meta"), <<>>, "meta", "", "") >>],
     \* a user type whose name starts with a single underscore (only names starting with two are reserved)
-    [k |-> "object", name |-> "_Meta", ifaces |-> <<>>, desc |-> "", dres |-> "", rt |-> "",
+    \* its description is the marker IDEO2: two lines that both start with U+3000 (expanded by the harness)
+    [k |-> "object", name |-> "_Meta", ifaces |-> <<>>, desc |-> "IDEO2", dres |-> "", rt |-> "",
        fields |-> << Fld(<<"meta", "info">>, Named("String"), <<>>, "meta_info", "", ""), Fld(<<"top", "level">>, Named("Level"), <<>>, "top_level", "r_top", "") >>],
     [k |-> "interface", name |-> "Node", ifaces |-> <<>>, desc |-> "", dres |-> "", rt |-> "rt_node",
        fields |-> << Fld(<<"node", "id">>, Named("ID"), <<>>, "node_id", "", "") >>],
